@@ -212,6 +212,9 @@ class SyncService(object):
 
     def on_write(self, st, payload):
         for r in self.parser.feed(payload):
+            ck = getattr(self.dev, 'clock', None)
+            if ck is not None:
+                r['clk'] = int(ck.time())        # when the record reached the device (the session's clock)
             self.records.append(r)
             self.handle(st, r)
         self.flush_reply(st)
